@@ -408,6 +408,17 @@ def unit(arg):
                         viol.append(('C09|numbers|shorthand-parse', f'{pre}={n}'))
                 except Exception as e:  # noqa
                     viol.append((f'C09|numbers|raises:{type(e).__name__}', f'{pre}={n}: {e!r}'))
+            # the named constructors of the naming conventions give the canonically encoded component, which reads back from its URI
+            for fname, t in (('from_segment', 0x32), ('from_byte_offset', 0x34), ('from_version', 0x36), ('from_timestamp', 0x38), ('from_sequence_num', 0x3A)):
+                acc.evaluations += 1
+                try:
+                    c3 = getattr(Component, fname)(n)
+                    if bytes(c3) != ts.tlv(t, ts.uint(n)):
+                        viol.append((f'C09|numbers|{fname}', f'{fname}({n}) = {bytes(c3).hex()}, the canonical component is {ts.tlv(t, ts.uint(n)).hex()}'))
+                    elif bytes(Component.from_str(Component.to_str(c3))) != bytes(c3):
+                        viol.append((f'C09|numbers|{fname}-uri', f'{fname}({n}) -> {Component.to_str(c3)!r} -> {bytes(Component.from_str(Component.to_str(c3))).hex()}'))
+                except Exception as e:  # noqa
+                    viol.append((f'C09|numbers|{fname}-raises:{type(e).__name__}', f'{fname}({n}): {e!r}'))
             # non-canonical widths: canonical URI must still round trip
             if n < 256:
                 for w in (2, 3, 4, 8):
